@@ -91,6 +91,47 @@ CLAIMS = {
             'its own nth_element and reads it directly afterwards',
             'Workload_Distribution balance, Range enumeration and Locate_Closest_Location ties (integer relations between run-time arguments: exhaustive enumeration is another family), '
             'monotonicity and equal spacing of the grids to rounding'),
+    'C02': ('path enumeration of the entry logic on a table of end values (IEEE NaN comparison semantics) and a one-iteration symbolic summary of the Ridders loop',
+            'C02.a reversed brackets enter the iteration with exchanged ends and their own values; C02.b the function is evaluated only at the two ends, at the midpoint and at '
+            'Ridders\' point x3+(x3-x1)sgn(f1-f2)f3/sqrt(f3^2-f1f2) built from values taken at x1,x2,x3; C02.c every re-bracketing branch keeps f_i=F(x_i) and is selected by a '
+            'sign difference of exactly the two values that become (f1,f2); C02.d NaN ends exit, f(l)f(r)>0 exits, an exact zero at an end is returned as is; '
+            'C02.e the previous-iterate variable starts at a constant sentinel, the stopping test is |x4-previous|<accuracy or f(x4)==0',
+            'that the returned point is within xAccuracy of a sign change (the stopping test compares successive iterates), exactness on linear functions to rounding, the 50-iteration fall-through'),
+    'C07': ('symbolic differentiation/limits of the extracted closed forms (sympy), sum summaries of the discrete families, wiring checks, dependency on C06 rules',
+            'C07.a for uniform, normal, exponential, Maxwell-Boltzmann and chi-square: d/dx CDF == PDF on the support, the PDF vanishes exactly on the constant CDF branches, '
+            'CDF limits 0 and 1; C07.b CDF_Binomial = sum PMF, CDF_Poisson = max(GammaQ(mu,n+1),0), Inv_CDF_Poisson, PMF_Poisson; C07.c Poisson (log-)likelihoods single-bin and '
+            'binned (every path of the bin loop adds the single-bin form of that bin); C07.d Quantile_Gauss inverts CDF_Gauss; C07.e chi-bar mixtures; C07.f KDE divided by its own '
+            'integral; C07.g the incomplete-gamma evaluator reached from the CDFs passes C06.a and C06.i',
+            'numerical agreement of CDF differences with quadrature of the PDF, tail accuracy, accuracy of Inv_Erf/Inv_GammaQ, non-negativity of the interpolated KDE'),
+    'C11': ('order-fact calculus over the path conditions of one symbolic loop iteration (Bracket, Brent); write-set and guard analysis of Nelder-Mead',
+            'C11.a Nelder-Mead writes to vertex values/rows are only: trial replacement under ytry=F(ptry)<y[ihi], shrink guarded by i!=ilo towards row ilo with re-evaluation, '
+            'the final 0<->ilo exchange of values and rows; C11.b selection scan; C11.c trial point c+fac(p_hi-c) and psum update; C11.d coefficient ranges; '
+            'C11.e Bracket keeps fb<=fa on every path, returns only brackets and keeps every value paired with its abscissa; Brent moves (x,fx) only to (u,F(u)) with fu<=fx and '
+            'returns x; C11.f Find_Maximum(f)=Find_Minimum(-f) with the same bracket and tolerance',
+            'convergence distance on bowls, termination within the iteration caps, the parabolic-step acceptance tests'),
+    'C12': ('one-iteration symbolic summaries of the recurrence and Newton loops; write census of the rule table; overload delegation chain',
+            'C12.a Bonnet recurrence p1<-((2j+1)z p1-j p2)/(j+1) for j<n from (1,0), pp=n(z p1-p2)/(z^2-1), Newton step, stopping |dz|<=1e-14; '
+            'C12.b nodes mid-/+hw z and equal weights 2hw/((1-z^2)pp^2) for the pair (i,n-1-i), i<(n+1)/2 covering all indices, no other write to the rule; '
+            'C12.c the three overloads chain to sum values[i]*rule[i][1] with values[i]=f(rule[i][0]), the rule is built for exactly (n,a,b), mismatched lengths exit',
+            'convergence of the Newton iteration for every n, strict ordering/interiority of computed nodes, positivity of computed weights, exactness to rounding'),
+    'C15': ('structural rules on the reflector/QR/QR-iteration code, loop-bound census, loop-carried-state analysis; two findings recorded in known_findings.json',
+            'C15.a reflector I-2uu^T with u=normalised(x-Sign(|x|,-x0)e1) on every path (exceptions only under exact degeneracy tests); C15.b same embedded reflector applied as '
+            'R<-PR, Q<-QP, conforming blocks, zeroing below the diagonal; C15.c A<-RQ, convergence measure sum|sub|/sum|diag| (absolute values), cap with diagnostic; '
+            'C15.d every loop in the closure of Eigensystem is bounded (KNOWN FINDING: Rayleigh while-loop); C15.e the shift handed to Inverse is unperturbed '
+            '(KNOWN FINDING: exits on exactly computed eigenvalues), each eigenvector search is independent of earlier ones',
+            'convergence of the unshifted iteration, accuracy of eigenpairs, orthogonality to rounding'),
+    'C18': ('transitive effect analysis over the call graph (entropy, engine construction, static state, engine forwarding) and provenance of returned values',
+            'C18.a in the closure of all 11 functions with an mt19937& parameter: no entropy source, no engine construction, no static engine/distribution/mutable static, every '
+            'draw receives the function\'s own engine; C18.b rejection samplers return variables drawn uniformly from their own axis limits, Metropolis starts inside and never '
+            'accepts outside a given domain, inverse transform returns the root on [xMin,xMax]; C18.c acceptance min(1,PDF(c)/PDF(x)) against a fresh uniform draw, Sample_Gauss; '
+            'C18.d chain length burn_in+thinning*sample with retention i>=burn_in && i%thinning==0 (exact count by the window lemma)',
+            'the empirical law of the samples (statistical), Poisson sampler correctness for large means'),
+    'C20': ('exact constant propagation over the initialiser DAG (sympy rationals); start-up order read from compiler output (LLVM IR of clang++, assembly of g++); wiring checks',
+            'C20.a 51 defining identities and 20 SI prefixes hold exactly; C20.b in each configured build (g++/clang++ at -O0; thorough adds -O2) every unit symbol read by a dynamic '
+            'initialiser is constant-initialised or stored earlier in the start-up sequence, constant-initialised symbols carry the exact value to a few ulps, no cross-TU '
+            'initialisers; C20.c In_Units scalar form and element-wise overloads forwarding dimension, round and digits; C20.d Export_Table/Import_Table/Export_List/Import_List/'
+            'Export_Function agree on the column<->unit map, header and skipped lines, values streamed as doubles',
+            'six-significant-digit round trip of values (stream formatting), multi-line headers vs Count_Lines, behaviour of Round inside In_Units'),
 }
 
 NOT_BUILT = 'check not built yet (framework under construction; DESIGN.md section 3 describes the planned rules)'
